@@ -4,7 +4,7 @@
    codes and feature bits are the definitions regenerated from the source
    (the Gen files); the control flow is written by hand and tied to the code by the
    correspondence family "be". *)
-From VV Require Import Base.Bits Base.Rt Base.Val Gen.GenConsts Gen.GenLayout Gen.GenFns Gen.GenVrfd Gen.GenBeAck Model.Transport.
+From VV Require Import Base.Bits Base.Rt Base.Val Gen.GenConsts Gen.GenLayout Gen.GenFns Gen.GenVrfd Gen.GenBeAck Model.Transport Gen.GenBeStat.
 Open Scope string_scope.
 Open Scope list_scope.
 Open Scope N_scope.
@@ -473,9 +473,8 @@ Definition dispatch (cfg : be_cfg) (s : be_state) (o : N) (h : VhostUserMsgHeade
             | ROk rh =>
                 let c := call "set_device_state_fd" [VN (VhostUserTransferDeviceState_direction m);
                                                      VN (VhostUserTransferDeviceState_phase m); vfds [f]] in
-                let sent := if o =? OUT_OK then msg_of rh (u64_body 256) []
-                            else if o =? OUT_ALT then msg_of rh (u64_body 0) [FILE_STATE]
-                            else msg_of rh (u64_body 257) [] in
+                (* value and descriptor of the reply per outcome of the handler: REGENERATED (Gen.GenBeStat) *)
+                let sent := msg_of rh (u64_body (ds_reply_value o)) (if ds_reply_has_fd o then [FILE_STATE] else []) in
                 (s, {| o_result := ROk tt; o_calls := [c]; o_sent := [sent]; o_closed := []; o_delivered := [f] |})
             end
         end
@@ -483,7 +482,7 @@ Definition dispatch (cfg : be_cfg) (s : be_state) (o : N) (h : VhostUserMsgHeade
   else if code =? FrontendReq_CHECK_DEVICE_STATE then
     match check_size h size 0 with
     | RErr e => (s, fail e fl)
-    | ROk _ => (s, reply h (u64_body (if o =? OUT_OK then 0 else 1)) [] (call "check_device_state" []) [] fl)
+    | ROk _ => (s, reply h (u64_body (cds_reply_value (o =? OUT_OK))) [] (call "check_device_state" []) [] fl)
     end
   else if code =? FrontendReq_GET_SHMEM_CONFIG then
     match check_proto s VhostUserProtocolFeatures_SHMEM with
